@@ -57,13 +57,16 @@ type funcValue struct {
 }
 
 type lgWalker struct {
-	fvals  *[]funcValue
-	w      *world
-	p      *pkgInfo
-	fn     string
-	res    *lgResult
-	goSeq  int
-	onLock func(fn string, pos token.Pos, held []heldLock) // optional observer (access table)
+	fvals    *[]funcValue
+	w        *world
+	p        *pkgInfo
+	fn       string
+	res      *lgResult
+	goSeq    int
+	acc      *accCollector // optional: field-access collection for the access table (C33)
+	recvName string        // name of the receiver variable of the enclosing declared method
+	exported bool          // enclosing declared function is exported / usable from outside
+	curCall  *ast.CallExpr
 }
 
 func (lw *lgWalker) note(pos token.Pos, f string, a ...any) {
@@ -189,6 +192,9 @@ func (lw *lgWalker) emitAcq(pos token.Pos, held []heldLock, class, mode string) 
 }
 
 func (lw *lgWalker) emitCall(pos token.Pos, held []heldLock, callee string) {
+	if lw.acc != nil {
+		lw.acc.call(lw, callee, held)
+	}
 	lw.res.Sites = append(lw.res.Sites, lgSite{Fn: lw.fn, Held: heldStrings(held), Kind: "call", Callee: callee, Pos: lw.w.pos(pos)})
 }
 
@@ -223,6 +229,7 @@ func (lw *lgWalker) release(pos token.Pos, held []heldLock, class, mode, key str
 
 // call handles one call expression after its operands have been visited.
 func (lw *lgWalker) call(c *ast.CallExpr, held []heldLock, inDefer bool) []heldLock {
+	lw.curCall = c
 	if m, class, key, ok := lw.lockOp(c); ok {
 		switch m {
 		case "Lock", "RLock":
@@ -410,7 +417,7 @@ func (lw *lgWalker) expr(e ast.Node, held []heldLock, inDefer bool) []heldLock {
 		// synchronously here with the locks currently held
 		before := heldStrings(held)
 		lw.goSeq++
-		sub := &lgWalker{w: lw.w, p: lw.p, fn: litName(lw.w, lw.fn, x), res: lw.res, onLock: lw.onLock, fvals: lw.fvals}
+		sub := &lgWalker{w: lw.w, p: lw.p, fn: litName(lw.w, lw.fn, x), res: lw.res, acc: lw.acc, recvName: lw.recvName, fvals: lw.fvals}
 		sub.function(x.Body)
 		out := lw.closure(x, held)
 		if strings.Join(heldStrings(out), ",") != strings.Join(before, ",") {
@@ -491,6 +498,9 @@ func (lw *lgWalker) branches(held []heldLock, bodies [][]ast.Stmt, hasDefault bo
 }
 
 func (lw *lgWalker) stmt(s ast.Stmt, held []heldLock) ([]heldLock, bool) {
+	if lw.acc != nil && s != nil {
+		lw.acc.scanStmt(lw, s, held)
+	}
 	switch x := s.(type) {
 	case nil:
 		return held, false
@@ -526,7 +536,7 @@ func (lw *lgWalker) stmt(s ast.Stmt, held []heldLock) ([]heldLock, bool) {
 		}
 		if fl, ok := x.Call.Fun.(*ast.FuncLit); ok {
 			lw.goSeq++
-			sub := &lgWalker{w: lw.w, p: lw.p, fn: fmt.Sprintf("%s$go%d", lw.fn, lw.goSeq), res: lw.res, onLock: lw.onLock, fvals: lw.fvals}
+			sub := &lgWalker{w: lw.w, p: lw.p, fn: fmt.Sprintf("%s$go%d", lw.fn, lw.goSeq), res: lw.res, acc: lw.acc, recvName: lw.recvName, fvals: lw.fvals}
 			sub.function(fl.Body)
 		} else if sel, ok := x.Call.Fun.(*ast.SelectorExpr); ok {
 			held = lw.expr(sel.X, held, false)
@@ -621,6 +631,9 @@ func (lw *lgWalker) clauses(body *ast.BlockStmt, held []heldLock) ([]heldLock, b
 				hasDefault = true
 			}
 			for _, e := range cc.List {
+				if lw.acc != nil {
+					lw.acc.scan(lw, e, accRead, held)
+				}
 				held = lw.expr(e, held, false)
 			}
 			bodies = append(bodies, cc.Body)
@@ -762,9 +775,14 @@ func collectFuncValues(w *world) []funcValue {
 	return out
 }
 
-func analyseLockGraph(w *world) *lgResult {
+func analyseLockGraph(w *world) *lgResult { return analyseLockGraphAcc(w, nil) }
+
+func analyseLockGraphAcc(w *world, acc *accCollector) *lgResult {
 	res := &lgResult{}
 	fvals := collectFuncValues(w)
+	if acc != nil {
+		acc.fvals = fvals
+	}
 	for _, p := range w.scope {
 		for _, f := range p.files {
 			for _, d := range f.Decls {
@@ -777,7 +795,13 @@ func analyseLockGraph(w *world) *lgResult {
 					continue
 				}
 				res.NFuncs++
-				lw := &lgWalker{w: w, p: p, fn: w.funcName(obj), res: res, fvals: &fvals}
+				lw := &lgWalker{w: w, p: p, fn: w.funcName(obj), res: res, fvals: &fvals, acc: acc}
+				if fd.Recv != nil && len(fd.Recv.List) == 1 && len(fd.Recv.List[0].Names) == 1 {
+					lw.recvName = fd.Recv.List[0].Names[0].Name
+				}
+				if acc != nil {
+					acc.declare(lw.fn, obj, lw.recvName)
+				}
 				lw.function(fd.Body)
 			}
 		}
